@@ -274,7 +274,7 @@ var vtagChoices = map[string][]string{
 	"bool":     {"", ""},
 	"slice":    {"", "", "nonzero", "required", "min=1"},
 	"map":      {"", "", "nonzero", "required"},
-	"ptr":      {"", "", "required", "nonzero", "min=1"},
+	"ptr":      {"", "", "required", "nonzero", "min=1", "positive", "max=10", "min=-3, max=5"},
 	"other":    {"", ""},
 }
 
